@@ -54,9 +54,11 @@ func firstDiff(a, b []byte) int {
 
 // LeafOpts selects what CompareLeaves insists on.
 type LeafOpts struct {
-	// SkipText: do not compare description / file-name texts (the caller checks them itself).
-	SkipText bool
-	// QPCanonAll: for quoted-printable leaves compare modulo LF->CRLF canonicalisation.
+	// NoNames: do not compare file names (the caller checks them itself).
+	NoNames bool
+	// NoDesc: do not compare Content-Description / Content-ID.
+	NoDesc bool
+	// NoShape: do not insist on the mixed > related > alternative nesting.
 	NoShape bool
 }
 
@@ -132,7 +134,7 @@ func CompareLeaves(root *mimeread.Entity, leaves []gen.Leaf, nParts, nEmbeds, nA
 					if strings.ToLower(disp) != want.Disposition {
 						vs = append(vs, core.V("leaf-disposition", "%s: disposition %q, expected %q", where, disp, want.Disposition))
 					}
-					if !o.SkipText {
+					if !o.NoNames {
 						fn, _ := mimeread.DecodeWords(params["filename"])
 						if fn != want.Filename {
 							vs = append(vs, core.V("leaf-filename", "%s: filename decodes to %q, expected %q", where, fn, want.Filename))
@@ -145,7 +147,7 @@ func CompareLeaves(root *mimeread.Entity, leaves []gen.Leaf, nParts, nEmbeds, nA
 				}
 			}
 		}
-		if !o.SkipText {
+		if !o.NoDesc {
 			d, hasD := e.Get("Content-Description")
 			if want.Desc == "" && hasD {
 				vs = append(vs, core.V("leaf-description", "%s: unexpected Content-Description %q", where, d))
